@@ -193,7 +193,7 @@ def gen_check(spec, mod, seed, tier="quick"):
     f_from = spec.item_name("from_str")
     if f_from or "FromStr" in cfg:
         w("        let idents: Vec<&'static str> = ORACLE.iter().map(|e| e.3).collect();")
-        w("        let probes = probe_strings(&all_names, &idents, %d);" % (64 if tier == "quick" else 100000))
+        w("        let probes = probe_strings(&all_names, &idents, %d);" % (64 if tier == "quick" else (100000 if n <= 1500 else 200)))
         w("        let first = |s: &str| -> Option<i128> { ORACLE.iter().find(|e| e.2 == s).map(|e| e.0) };")
     if f_from:
         w("        out.guard(\"C04\", \"from_str\", |out| { for s in &probes { let g: Option<%s> = %s::%s(s); out.eq(\"C04\", \"from_str\", s, g.map(disc), first(s)); } });" % (En, En, f_from))
@@ -209,7 +209,10 @@ def gen_check(spec, mod, seed, tier="quick"):
         # very large enums: every operation is still exercised, but with few, short histories
         depth, randoms = (3, 6) if n <= 5000 else (2, 2)
     f_iter = spec.item_name("iter")
-    if f_iter:
+    heavy = n * max(len(runs), 1) > 3000000      # traversal cost of next_and_back mode is n x runs
+    if f_iter and heavy:
+        w("        out.guard(\"C06\", \"iter\", |out| { check_iterator_light(\"C06\", \"iter()\", &|| %s::%s(), &disc, &all, out); });" % (En, f_iter))
+    elif f_iter:
         w("        out.guard(\"C06\", \"iter\", |out| { check_iterator(\"C06\", \"iter()\", &|| %s::%s(), &disc, &all, seed, %d, %d, out); });" % (En, f_iter, depth, randoms))
     f_range = spec.item_name("range")
     if f_range and f_iter:
@@ -229,13 +232,16 @@ def gen_check(spec, mod, seed, tier="quick"):
             pos = 0
             for (b_, e_) in runs[:6] + runs[-3:]:
                 pass
-            for _ in range(30 if tier == "quick" else 400):
+            for _ in range(30 if tier == "quick" else (400 if not heavy else 12)):
                 pairs.add((rng.randrange(n), rng.randrange(n)))
             w("        static PAIRS: &[(usize, usize)] = &[%s];" % ", ".join("(%d, %d)" % p for p in sorted(pairs)))
             w("        out.guard(\"C07\", \"range\", |out| { for &(a, b) in PAIRS {")
             w("            let want: Vec<i128> = if a <= b { all[a..=b].to_vec() } else { Vec::new() };")
             w("            let what = format!(\"range({},{})\", ORACLE[a].3, ORACLE[b].3);")
-            w("            check_iterator(\"C07\", &what, &|| %s::%s(ORACLE[a].1, ORACLE[b].1), &disc, &want, seed ^ ((a * 131 + b) as u64), 3, 4, out);" % (En, f_range))
+            if heavy:
+                w("            check_iterator_light(\"C07\", &what, &|| %s::%s(ORACLE[a].1, ORACLE[b].1), &disc, &want, out);" % (En, f_range))
+            else:
+                w("            check_iterator(\"C07\", &what, &|| %s::%s(ORACLE[a].1, ORACLE[b].1), &disc, &want, seed ^ ((a * 131 + b) as u64), 3, 4, out);" % (En, f_range))
             w("        } });")
             if n <= 400:
                 w("        out.guard(\"C07\", \"range-all-pairs\", |out| { for a in 0..all.len() { for b in 0..all.len() {")
